@@ -1146,7 +1146,7 @@ func (P *Prog) checkPrecedence(r *Result) {
 		}
 	}
 	// i18n: language looked up in this call's context
-	if fn := P.fn("zog/i18n.SetLanguagesErrsMap$1"); fn != nil {
+	if fn := closureStoredToGlobal(P.fn("zog/i18n.SetLanguagesErrsMap"), "IssueFormatter"); fn != nil {
 		r.sawFunc(fname(fn))
 		var getCall *ssa.Call
 		eachInstr(fn, func(_ *ssa.BasicBlock, _ int, in ssa.Instruction) {
